@@ -98,6 +98,9 @@ def cases_for(rng, n, ctx):
                 table = rng.integers(0, N, size=(ns, N))
                 if rng.random() < 0.15:
                     table[1:] = table[0]                   # rank deficient on purpose
+                # the same table of configuration indices held in another integer type (tables come from files, from other programs, from
+                # memory-saving code): a valid index table is a valid index table whatever its storage type
+                table = table.astype([np.int64, np.uint8, np.int32, np.int16, np.uint16, np.int8 if N <= 127 else np.uint8][i % 6])
                 bs = _call(lambda: o.export_bootstrap(samples=ns, random_numbers=table))
                 tl = [[int(v) for v in row] for row in table]
                 if isinstance(bs, Exception):
@@ -115,6 +118,10 @@ def cases_for(rng, n, ctx):
                     f1, f2, f3 = (os.path.join(tmp, 'r%d_%d' % (i, k)) for k in range(3))
                     other = pe.Obs([rng.normal(size=N)], [name], idl=[idl])
                     k = int(rng.integers(2, 9))
+                    if (i // 3) % 2 == 1:       # (i is a multiple of 3 here, and the multiples of 6 have long chains that do not come this way)
+                        # history: a shorter export of the same chain came first - the table of a request depends on the chain name and the
+                        # number of samples asked for, not on what was exported before
+                        _call(lambda: o.export_bootstrap(samples=max(1, k - 1)))
                     first = _call(lambda: o.export_bootstrap(samples=k, save_rng=f1))
                     second = _call(lambda: o.export_bootstrap(samples=k, save_rng=f2))
                     oth = _call(lambda: other.export_bootstrap(samples=k, save_rng=f3))
